@@ -65,6 +65,9 @@ METHODS = ["Echo", "Ping", ""]
 FOREIGN_PAYLOADS = ["", "1a03616263", "0a03616263", "0801", "12020801", "2a0568656c6c6f", "ffffffff", "0a0a0a0a", "7a0161", "0d01020304"]
 
 
+VH_NAMES = ["web", "vh-b", "api", "vh-a", "zz", "default", "b", "a"]
+
+
 class Gen:
     def __init__(self, rng, bad=0.0, sparse=0.0):
         self.r = rng
@@ -159,8 +162,9 @@ class Gen:
         r = self.r
         name = r.choice(RC_NAMES) if name is None else name
         vhs = []
-        for i in range(r.choice([0, 1, 1, 2, 3])):
-            vhs.append(C("Build_vhost_pb", "vh%d" % i, L(self.route("r%d" % j) for j in range(r.choice([0, 1, 2, 3, 5])))))
+        # names in no particular order (first match follows the order sent, not the names)
+        for i, vn in enumerate(r.sample(VH_NAMES, r.choice([0, 1, 1, 2, 3]))):
+            vhs.append(C("Build_vhost_pb", vn, L(self.route("r%d" % j) for j in range(r.choice([0, 1, 2, 3, 5])))))
         return C("Build_rc_pb", name, L(vhs))
 
     def thrift(self):
@@ -191,7 +195,8 @@ class Gen:
         r = self.r
         k = r.random()
         if k < 0.25:
-            return C("HFRateLimit", self.opt(lambda: P(self.u32(), self.opt(self.u32, 0.2)), 0.25))
+            flags = [r.choice(["fill-500ms", "fill-0", "fill-absent", "fill-1h"])] if r.random() < 0.3 else []
+            return C("HFRateLimit", self.opt(lambda: P(self.u32(), self.opt(self.u32, 0.2)), 0.25), *flags)
         if k < 0.25 + self.bad * 0.15:
             return C("HFRateLimitBad")
         if k < 0.5:
